@@ -65,6 +65,17 @@ type Proc struct {
 
 const sentinel = "@@DONE@@"
 
+// limited starts a solver under an address-space limit (3 GiB): a query that
+// would exhaust memory ends as a dead solver (inconclusive) instead of
+// inviting the kernel's OOM killer to pick some other process
+func limited(argv []string) *exec.Cmd {
+	quoted := make([]string, len(argv))
+	for i, a := range argv {
+		quoted[i] = "'" + strings.ReplaceAll(a, "'", "'\\''") + "'"
+	}
+	return exec.Command("sh", "-c", "ulimit -v 3145728; exec "+strings.Join(quoted, " "))
+}
+
 func NewProc(kind string, capMs int) *Proc {
 	p := &Proc{Name: kind, capMs: capMs}
 	switch kind {
@@ -79,7 +90,7 @@ func NewProc(kind string, capMs int) *Proc {
 }
 
 func (p *Proc) start() error {
-	p.cmd = exec.Command(p.argv[0], p.argv[1:]...)
+	p.cmd = limited(p.argv)
 	in, err := p.cmd.StdinPipe()
 	if err != nil {
 		return err
@@ -415,7 +426,7 @@ func OneShot(kind string, sc *Script, capMs int, wantModel bool) Result {
 		fmt.Fprintf(f, "; ---- oneshot %s\n%s", kind, text)
 		f.Close()
 	}
-	cmd := exec.Command(argv[0], argv[1:]...)
+	cmd := limited(argv)
 	cmd.Stdin = strings.NewReader(text)
 	done := make(chan struct{})
 	var out []byte
